@@ -183,6 +183,16 @@ PROPS["C13"] = {
     "trusted": TRUSTED,
 }
 
+PROPS["C14"] = {
+    "level": "proof",
+    "quick": [n for n in JOBS if n.startswith("pbkdf2.")],
+    "campaign": native.lib_campaign("pbkdf2"),
+    "text": "unbounded shape: block loop for every outlen (loop contract): block i is derived from salt || INT32BE(i) at every block, ceil(outlen/32) F evaluations, exactly outlen bytes written (exact-size object, last partial block through a local buffer); PRF-chain loop for every count (loop contract): exactly max(count,1) PRF evaluations per block. Bounded: end-to-end output == RFC 8018 over RFC 2104 over an arbitrary hash function on a grid of (passwordlen, saltlen, count, outlen).",
+    "note": L2NOTE + "Grid: (8,4,1,32),(5,8,2,33),(64,8,3,1),(65,0,1,40),(0,0,0,31),(24,36,2,64),(63,5,2,0),(9,20,2,70). The block-loop proof fixes count to 0 and 1 (the chain code then folds away; the chain loop is closed separately for every count at outlen 40); in the shape proofs the HMAC API is a frame-only stub and PRF outputs landing in the unbounded output buffer are modelled at one arbitrary ghost index.",
+    "technique": "CBMC loop contracts on the real pbkdf2 loops (protocol-counting callee stubs) + bounded end-to-end equivalence over contract stubs",
+    "trusted": TRUSTED,
+}
+
 ALL = ["C%02d" % i for i in range(1, 21)]
 NOT_APPLICABLE = {k: "check under construction in this session (see DESIGN.md section 4); not claimed until its obligations are discharged"
                   for k in ALL if k not in PROPS}
